@@ -360,7 +360,7 @@ func (r *Runtime) object_isFrozen(call FunctionCall) Value {
 				prop = item.value
 			}
 			if prop, ok := prop.(*valueProperty); ok {
-				if prop.configurable || prop.value != nil && prop.writable {
+				if prop.configurable || !prop.accessor && prop.writable {
 					return valueFalse
 				}
 			} else {
